@@ -246,3 +246,108 @@ Print Assumptions c15_civil_step.
 Print Assumptions c15_contains_spec.
 Print Assumptions c15_gating.
 Print Assumptions c15_every_flush_gated.
+
+(* ====================================================================================================== *)
+(* END TO END: the two time stages composed with the notification pipeline of a group (Model/MutePipe.v). *)
+(* ====================================================================================================== *)
+(* "mute/active gating follows them": the product of the route's time stages (active, then mute; the verdict is the
+   same for every alert of the batch and is taken at the TICK VALUE notify.Now(ctx), not at the instant the flush
+   runs) with the timed group model of C01/C04/C05. The stages have no state of their own (M = unit, no operations);
+   [other] = what the other mute stages (inhibition, silences) drop. For ALL accepted runs: all timelines, timer
+   interleavings, delivery outcomes, log GC / gossip. *)
+From AM Require Import Model.Group Proofs.GroupProofs Model.MutePipe Proofs.MutePipeProofs.
+
+Definition ti_step (u : unit) (t : Z) (o : Empty_set) : unit := u.
+Definition ti_verdict (tz : string -> Z -> Z) (m : intervals) (route gkey : string) (mute active : list string)
+  (u : unit) (tau now a : Z) : bool :=
+  negb (fst (fst (time_stages tz m (mkCtx (Some route) (Some gkey) (Some mute) (Some active) (Some tau)) None))).
+
+(* NO NOTIFICATION OUT OF A GATED FLUSH. Every notification attempt that lists at least one alert comes from a flush
+   whose tick value tauf lies in some active interval (or the route has no active list) and in no mute interval. *)
+Theorem c15_gated_flush_never_notifies tz m route gkey mute active cfg t0 h P outs i r sent oc :
+  all_known m mute -> all_known m active ->
+  mprun ti_step (ti_verdict tz m route gkey mute active) cfg (mpinit cfg tt t0) h = Some (P, outs) ->
+  In (ONotify i r sent oc) outs -> sent <> [] ->
+  exists h0 tf tauf other h0' ta h2,
+    h = (h0 ++ (tf, MTick tauf other) :: h0') ++ (ta, MGrp (EAttempt i oc)) :: h2 /\ no_tick h0' /\ tf <= ta /\
+    (active = [] \/ exists n, muted_by tz m active tauf n) /\ (forall n, ~ muted_by tz m mute tauf n).
+Proof.
+  intros Hm Ha Hrun Hin Hne.
+  destruct (muted_never_notified _ _ cfg _ t0 h P outs i r sent oc Hrun Hin)
+    as (h1 & ta & h2 & P1 & o1 & tauf & tf & Mf & -> & Hr1 & Hfl & Hle & Hv).
+  destruct (flush_ghost _ _ cfg h1 _ _ _ Hr1) as [[Hn _]|(h0 & tf' & tau & other & h0' & P0 & o0 & -> & Hr0 & Hfl' & Hnt & Hck)].
+  { rewrite Hfl in Hn. discriminate. }
+  rewrite Hfl in Hfl'. injection Hfl' as <- <- ->.
+  exists h0, tf, tauf, other, h0', ta, h2. split; [reflexivity|]. split; [exact Hnt|]. split; [exact Hle|].
+  destruct sent as [|f sent]; [congruence|]. specialize (Hv f (or_introl eq_refl)). unfold ti_verdict in Hv.
+  destruct (c15_gating tz m route gkey mute active tauf None Hm Ha) as (p & mk & Hts & Hp & _).
+  cbv zeta in Hts. rewrite Hts in Hv. cbn [fst] in Hv. apply negb_false_iff in Hv. subst p.
+  destruct Hp as [Hp _]. destruct (Hp eq_refl) as [Hba Hbm]. split.
+  - destruct active as [|a0 ar]; [left; reflexivity|]. right.
+    destruct (c15_mutes_spec tz m (a0 :: ar) tauf Ha) as (b & l & _ & Hb & _). destruct b.
+    + apply Hb. reflexivity.
+    + exfalso. apply Hba. split; [discriminate|]. intros n Hn. assert (false = true) by (apply Hb; exists n; exact Hn). discriminate.
+  - intros n Hn. apply Hbm. exists n. exact Hn.
+Qed.
+
+(* ... AND NOTHING ELSE IS WITHHELD by these stages: at a flush whose tick value lies in an active interval (or the
+   route has no active list) and in no mute interval, every alert of the group that the other stages let through
+   reaches the integrations; otherwise none does. In particular a route without intervals never gates. *)
+Theorem c15_flush_gating_exact tz m route gkey mute active cfg P t tau other P' o :
+  all_known m mute -> all_known m active ->
+  mpstep ti_step (ti_verdict tz m route gkey mute active) cfg P t (MTick tau other) = Some (P', o) ->
+  exists g' fl', s_group (mp_g P') = Some g' /\ gr_flight g' = Some fl' /\ fl_tick fl' = tau /\ fl_start fl' = t /\
+    o = [OFlush (fl_all fl')] /\
+    forall f, In f (fl_post fl') <->
+      In f (fl_all fl') /\ ~ In (f_id f) other /\
+      (active = [] \/ exists n, muted_by tz m active tau n) /\ (forall n, ~ muted_by tz m mute tau n).
+Proof.
+  intros Hm Ha H.
+  destruct (tick_post_exact _ _ cfg P t tau other P' o H) as (g' & fl' & Hg & Hf & Hst & Hfl & _ & Ho & Hpost).
+  exists g', fl'. split; [exact Hg|]. split; [exact Hf|].
+  assert (Htk : fl_tick fl' = tau).
+  { destruct P as [u g fo]. cbn [MutePipe.mpstep mp_g mp_m] in H.
+    destruct (Group.step cfg g t (ETick tau _)) as [[g1 o1]|] eqn:Hs; [|discriminate]. inversion H; subst.
+    destruct (tick_flight cfg _ _ _ _ _ _ Hs) as (g0 & fl & _ & _ & Hg1 & Htk & _). cbn [mp_g] in Hg. rewrite Hg1 in Hg.
+    injection Hg as <-. cbn in Hf. injection Hf as <-. exact Htk. }
+  split; [exact Htk|]. split; [exact Hst|]. split; [exact Ho|]. intros f. rewrite Hpost. unfold ti_verdict.
+  destruct (c15_gating tz m route gkey mute active tau None Hm Ha) as (p & mk & Hts & Hp & _).
+  cbv zeta in Hts. rewrite Hts. cbn [fst]. rewrite negb_false_iff.
+  assert (Hiff : p = true <-> (active = [] \/ exists n, muted_by tz m active tau n) /\ (forall n, ~ muted_by tz m mute tau n)).
+  { rewrite Hp. split.
+    - intros [Hba Hbm]. split; [|intros n Hn; apply Hbm; exists n; exact Hn].
+      destruct active as [|a0 ar]; [left; reflexivity|]. right.
+      destruct (c15_mutes_spec tz m (a0 :: ar) tau Ha) as (b & l & _ & Hb & _). destruct b.
+      + apply Hb. reflexivity.
+      + exfalso. apply Hba. split; [discriminate|]. intros n Hn. assert (false = true) by (apply Hb; exists n; exact Hn). discriminate.
+    - intros [[->|(n & Hn)] Hnm]; (split; [|intros (n' & Hn'); exact (Hnm n' Hn')]).
+      + intros [Hc _]. congruence.
+      + intros [_ Hc]. exact (Hc n Hn). }
+  rewrite Hiff. tauto.
+Qed.
+
+(* the product is an accepted run of the group model: every theorem of C01 / C04 / C05 / C06 applies to it *)
+Theorem c15_pipeline_is_a_group_run tz m route gkey mute active cfg h P P' outs :
+  mprun ti_step (ti_verdict tz m route gkey mute active) cfg P h = Some (P', outs) ->
+  Group.run cfg (mp_g P) (gview ti_step (ti_verdict tz m route gkey mute active) cfg P h) = Some (mp_g P', outs).
+Proof. exact (mprun_proj ti_step (ti_verdict tz m route gkey mute active) cfg h P P' outs). Qed.
+
+(* non-vacuity: a group on the route of c15_ex_flush_sequence (muted by "offhours" until Thu 09:00 Berlin): the flush
+   at 08:59 hands nothing to the integration, the flush at 09:00 notifies *)
+Definition px_cfg : gcfg := mkG 0 60 100000 20 500000 [mkI true].
+Definition px_hist : list (Z * mev (mop := Empty_set)) :=
+  [ (1709193600 - 70, MGrp (EInsert (Group.mkA 1 (1709193600 - 70) 0 (1709193600 - 70))));
+    (1709193600 - 70, MTick (1709193600 - 70) []); (1709193600 - 70, MGrp EFlushEnd);
+    (1709193600 - 10, MTick (1709193600 - 10) []); (1709193600 - 10, MGrp EFlushEnd);
+    (1709193600 + 50, MTick (1709193600 + 50) []); (1709193600 + 50, MGrp (EDedup 0));
+    (1709193600 + 51, MGrp (EAttempt 0 OK)); (1709193600 + 51, MGrp EFlushEnd) ].
+Example c15_pipeline_nonvacuous :
+  option_map snd (mprun ti_step (ti_verdict ex_tz ex_m "r" "g" ["offhours"] []) px_cfg (mpinit px_cfg tt (1709193600 - 100)) px_hist) =
+  Some [ OFlush [mkF 1 false (1709193600 - 70)]; OFlushEnd true; OFlush [mkF 1 false (1709193600 - 70)]; OFlushEnd true;
+         OFlush [mkF 1 false (1709193600 - 70)]; ONotify 0 RFirst [mkF 1 false (1709193600 - 70)] OK;
+         OLog 0 [1] [] (1709193600 + 51); OFlushEnd true ].
+Proof. vm_compute. reflexivity. Qed.
+
+Print Assumptions c15_gated_flush_never_notifies.
+Print Assumptions c15_flush_gating_exact.
+Print Assumptions c15_pipeline_is_a_group_run.
